@@ -217,3 +217,94 @@ Fixpoint lin (fuel : nat) (shared : bool) (s : ctl) (pend : list cev) : bool :=
 
 Definition conc_reject (c : conc_case_t) : bool := negb (lin (S (length c.2)) c.1 init c.2).
 Definition conc_rejects (cs : list conc_case_t) : list nat := find_idx conc_reject cs.
+
+(* ---- end-to-end cases: cesium writers on one index channel ---- *)
+Inductive eop := EOpen (w subj auth : N) (eou : bool) | EWrite (w n : N) | ESet (w a : N) | EClose (w : N).
+(* status code, authorized flag (2 = not a write), stamps carried by the write *)
+Definition eobs : Type := N * N * list Z.
+Definition e2e_case_t : Type := bool * list (eop * eobs) * list Z.
+
+Definition ts_max : Z := 9223372036854775807.
+Fixpoint stamps (next : Z) (n : nat) : list Z :=
+  match n with O => [] | S k => next :: stamps (next + 1)%Z k end.
+
+Record estate := ES { e_ctl : ctl; e_next : Z; e_store : list Z }.
+
+(* the writer layer over the control model: a write is persisted iff its gate authorizes *)
+Definition e2e_step (shared : bool) (s : estate) (o : eop) : estate * eobs :=
+  match o with
+  | EOpen w sj au eou =>
+      let c := OCfg w sj au (TR (e_next s * 1000000000)%Z ts_max) false eou false in
+      let '(c', ou) := step true shared (e_ctl s) (Open c) in
+      (ES c' (e_next s) (e_store s), (st_code (out_st ou), 2, []))
+  | ESet w a =>
+      let '(c', ou) := step true shared (e_ctl s) (SetAuth w a) in
+      (ES c' (e_next s) (e_store s), (st_code (out_st ou), 2, []))
+  | EClose w =>
+      let '(c', ou) := step true shared (e_ctl s) (Release w) in
+      (ES c' (e_next s) (e_store s), (st_code (out_st ou), 2, []))
+  | EWrite w n =>
+      if existsb (N.eqb w) (c_live (e_ctl s)) then
+        let k := N.to_nat (N.max n 1) in
+        let ts := stamps (e_next s) k in
+        let az := fst (authorize shared (e_ctl s) w) in
+        (ES (e_ctl s) (e_next s + Z.of_nat k)%Z (if az then e_store s ++ ts else e_store s),
+         (0, if az then 1 else 0, ts))
+      else (s, (5, 2, []))
+  end.
+
+Fixpoint e2e_run (shared : bool) (s : estate) (ops : list eop) : list eobs * list Z :=
+  match ops with
+  | [] => ([], e_store s)
+  | o :: rest =>
+      let '(s', ob) := e2e_step shared s o in
+      let '(obs, st) := e2e_run shared s' rest in (ob :: obs, st)
+  end.
+
+Definition e2e_mismatch (c : e2e_case_t) : bool :=
+  let '(shared, tr, rd) := c in
+  negb (bool_decide (e2e_run shared (ES init 10 []) (map fst tr) = (map snd tr, rd))).
+
+(* the property on the implementation's observations: open writers in open order with their
+   authority; a write is authorized iff its writer is the highest-authority / earliest-open one
+   (exclusive) or has the highest authority (shared); Read returns exactly the stamps of the
+   authorized writes, in order. *)
+Definition wl : Type := list (N * N).
+Fixpoint wleader (l : wl) : option (N * N) :=
+  match l with
+  | [] => None
+  | g :: rest => match wleader rest with
+                 | None => Some g
+                 | Some m => if m.2 <=? g.2 then Some g else Some m
+                 end
+  end.
+Definition wget (l : wl) (w : N) : option N :=
+  match filter (fun p => p.1 =? w) l with p :: _ => Some p.2 | [] => None end.
+
+Fixpoint e2e_ok (shared : bool) (l : wl) (acc : list Z) (tr : list (eop * eobs)) (rd : list Z) : bool :=
+  match tr with
+  | [] => bool_decide (rd = acc)
+  | (o, (st, az, ts)) :: rest =>
+      match o with
+      | EOpen w _ au _ => e2e_ok shared (if st =? 0 then l ++ [(w, au)] else l) acc rest rd
+      | ESet w a =>
+          e2e_ok shared (if st =? 0 then map (fun p => if p.1 =? w then (w, a) else p) l else l) acc rest rd
+      | EClose w => e2e_ok shared (if st =? 0 then filter (fun p => negb (p.1 =? w)) l else l) acc rest rd
+      | EWrite w _ =>
+          if st =? 0 then
+            match wget l w, wleader l with
+            | Some a, Some m =>
+                let should := if shared then a =? m.2 else w =? m.1 in
+                if bool_decide (az = if should then 1 else 0)
+                then e2e_ok shared l (if should then acc ++ ts else acc) rest rd
+                else false
+            | _, _ => false
+            end
+          else e2e_ok shared l acc rest rd
+      end
+  end.
+
+Definition e2e_violates (c : e2e_case_t) : bool :=
+  let '(shared, tr, rd) := c in negb (e2e_ok shared [] [] tr rd).
+Definition e2e_mismatches (cs : list e2e_case_t) : list nat := find_idx e2e_mismatch cs.
+Definition e2e_violations (cs : list e2e_case_t) : list nat := find_idx e2e_violates cs.
